@@ -123,7 +123,6 @@ package dcp
 //@ extern metric.NewMetricCollector
 //@ extern api.NewAPI
 //@ extern couchbase.NewHealthCheck
-//@ extern couchbase.NewCBMetadata
 //@ extern metadata.NewFSMetadata
 
 //@ iface couchbase.Client.GetNumVBuckets
@@ -146,9 +145,17 @@ package dcp
 //@ params recv topic fn transactional
 //@ modifies nothing
 
+// Every membership notification reaches the stream's debounce: the root listener has no opinion of its own (C11).
+//@ func (*dcp).membershipChangedListener
+//@ params s _
+//@ props C11
+//@ requires s != nil && s.stream != nil
+//@ ensures.every_notification_reaches_the_debounce[C11] calls(stream.Stream.Rebalance) == 1 && arg(stream.Stream.Rebalance, 0, recv) == s.stream
+//@ modifies calls(stream.Stream.Rebalance)
+
 //@ func (*dcp).Start
 //@ params s
-//@ props C15 C02 C11 C13 C19
+//@ props C15 C02 C11 C13 C19 C18
 //@ requires s != nil && s.config != nil && s.client != nil && s.bus != nil && logger.Log != nil && s.version != nil
 //@ requires s.readyCh != nil && s.stopCh != nil && s.cancelCh != nil && s.apiShutdown != nil
 //@ let custom = old(s.metadata)
